@@ -41,7 +41,7 @@ theorem z3Satisfiable_spec {E : Env} (hE : OracleExact E) {hook : PModel → M U
     match z3Satisfiable E r extra hook s with
     | (.ok b, s') => (b = true ↔ ∃ a, SatBy ((objAt s r).asserted ++ extra) a) ∧ L1Step r P s s' ∧
                      (objAt s' r).frames = (objAt s r).frames
-    | (.error e, s') => e = .giveUp ∧ L1Step r P s s' ∧ (objAt s' r).frames = (objAt s r).frames := by
+    | (.error e, s') => IsGiveUp E e ∧ L1Step r P s s' ∧ (objAt s' r).frames = (objAt s r).frames := by
   have hc := z3Check_cases hE r extra s
   simp only [z3Satisfiable, bind, M.bind]
   rcases h : z3Check E r extra s with ⟨res, s1⟩
@@ -119,7 +119,7 @@ theorem batchEvalLoop_spec {E : Env} (hE : OracleExact E) {hook : PModel → M U
           (∀ t ∈ new, Realises ((objAt s r).asserted ++ extra) exprs t) ∧ new.Nodup ∧ new.length ≤ rem ∧
           (new.length < rem → ∀ a, SatBy ((objAt s r).asserted ++ extra) a → exprs.map (·.val a) ∈ new) ∧
           L1Step r P s s' ∧ TopGrew r s s' B ∧ (rem ≤ 1 → B = [])
-      | (.error e, s') => e = .giveUp ∧ ∃ B, L1Step r P s s' ∧ TopGrew r s s' B ∧ (rem ≤ 1 → B = []) := by
+      | (.error e, s') => IsGiveUp E e ∧ ∃ B, L1Step r P s s' ∧ TopGrew r s s' B ∧ (rem ≤ 1 → B = []) := by
   intro rem
   induction rem with
   | zero =>
@@ -257,7 +257,7 @@ theorem z3BatchEval_spec {E : Env} (hE : OracleExact E) {hook : PModel → M Uni
         (∀ t ∈ ts, Realises ((objAt s r).asserted ++ extra) exprs t) ∧ ts.Nodup ∧ ts.length ≤ n ∧
         (ts.length < n → ∀ a, SatBy ((objAt s r).asserted ++ extra) a → exprs.map (·.val a) ∈ ts) ∧
         L1Step r P s s' ∧ (objAt s' r).frames = (objAt s r).frames
-    | (.error e, s') => e = .giveUp ∧ L1Step r P s s' ∧ (objAt s' r).frames = (objAt s r).frames := by
+    | (.error e, s') => IsGiveUp E e ∧ L1Step r P s s' ∧ (objAt s' r).frames = (objAt s r).frames := by
   obtain ⟨f, rest, hf⟩ := List.exists_cons_of_ne_nil hne
   unfold z3BatchEval
   by_cases hn : n > 1
